@@ -163,6 +163,17 @@ Proof.
   - unfold in_domain. rewrite Hk, trunc_inject, Hr, integral_inject. reflexivity.
 Qed.
 
+(* unit-qualified values: the verdict on "v unit" is the verdict of the range model on the converted value *)
+Lemma qualified_verdict p conv v :
+  p_kind p = KFloat ->
+  ((conv v < p_min p \/ p_max p < conv v) -> is_sentinel p (conv v) = false -> read_qualified p conv v = Reject (p_name p)) /\
+  (p_min p <= conv v -> conv v <= p_max p -> final_is p (read_qualified p conv v) (conv v)).
+Proof.
+  intros Hk. unfold read_qualified. split.
+  - intros Hr Hs. apply reject_float; auto.
+  - intros H1 H2. apply accept_float; auto.
+Qed.
+
 (* the only out-of-domain values that are not rejected are the 'not provided' values *)
 Lemma sentinel_only p v :
   is_numeric p = true -> (p_kind p = KInt -> integral v = true) -> in_domain p v = false ->
